@@ -14,7 +14,7 @@ RULE = (
     "valuations]); the function is instantiated in a Module and evaluated in ONE simulation for ALL (value, offset, "
     "placeholder) valuations with offset in 0..width when that space is <= 2^14 points, else for 48-128 drawn "
     "valuations (quick-tier Hypothesis cases carry drawn valuations above 2^11 points).  Enumerated completely (exhaustive=true refers to this list): shift_left/right for widths 1-7 with "
-    "default, constant 0/1 and signal placeholders; rotate_left/right for widths 1-7; generic_shift_left/right for "
+    "default, constant 0/1 and signal placeholders, the value given as an unsigned and as a signed signal; rotate_left/right for widths 1-7; generic_shift_left/right for "
     "widths 1-5 (all value1, value2); the six *_vec_* functions for lengths 1-7 of 1-bit elements, lengths 1-4 of "
     "2-bit plain/signed/ArrayLayout/StructLayout elements, lengths 1-3 of 3-bit elements (generic vec: lengths 1-3, "
     "element width <= 2), placeholders none/constant/signal, sequences given as python lists and as ArrayLayout "
@@ -93,12 +93,14 @@ def make_spec(t, p) -> Spec:
 
         def build():
             m = Module()
-            val = Signal(w, name="value")
+            # "sg": the shifted bit vector is handed over as a signed value (a ValueLike like any other; what is
+            # promised is the bit pattern of the result)
+            val = Signal(signed(w) if p.get("sg") else w, name="value")
             off = Signal(bits_for(w) + offx, name="offset")
             ins = [("value", val), ("offset", off)]
             fn = getattr(_S(), t)
             if kind == "generic":
-                v2 = Signal(w, name="value2")
+                v2 = Signal(signed(w) if p.get("sg") == 2 else w, name="value2")
                 ins.append(("value2", v2))
                 out = fn(val, v2, off)
             elif kind == "rotate" or ph == "default":
@@ -222,13 +224,16 @@ def enumerate_cases(tier):
         for t in ("shift_left", "shift_right"):
             for ph in ("default", "const0", "const1", "signal"):
                 cases.append(_case(t, w=w, ph=ph, offx=0))
+                cases.append(_case(t, w=w, ph=ph, offx=0, sg=1))
             cases.append(_case(t, w=w, ph="signal", offx=1))
         for t in ("rotate_left", "rotate_right"):
             cases.append(_case(t, w=w, offx=0))
             cases.append(_case(t, w=w, offx=1))
+            cases.append(_case(t, w=w, offx=0, sg=1))
     for w in range(1, 6):
         for t in ("generic_shift_left", "generic_shift_right"):
             cases.append(_case(t, w=w, offx=0))
+            cases.append(_case(t, w=w, offx=0, sg=1 + w % 2))
     shift_vec = ("shift_vec_left", "shift_vec_right")
     rot_vec = ("rotate_vec_left", "rotate_vec_right")
     gen_vec = ("generic_shift_vec_left", "generic_shift_vec_right")
@@ -259,7 +264,7 @@ def strategy(draw, tier="quick"):
         t = draw(st.sampled_from(SCALAR))
         lo = 6 if t.startswith("generic") else 8
         p = {"w": draw(st.integers(lo, 24)), "ph": draw(st.sampled_from(["default", "const0", "const1", "signal"])),
-             "offx": draw(st.integers(0, 2))}
+             "offx": draw(st.integers(0, 2)), "sg": draw(st.sampled_from([0, 0, 1, 2]))}
     else:
         t = draw(st.sampled_from(VEC))
         p = {
